@@ -274,3 +274,47 @@ def gen_x64(rows=None):
                 ", ".join(f"chunk{k}_len" for k in range(len(chunks))) + "]\n")
         f.write("end DynasmVerif.X64.Gen\n")
     return {"entries": len(entries), "chunks": len(chunks), "modules": modules + ["DynasmVerif.Generated.X64All"]}
+
+
+# ---------------------------------------------------------------------------------------------
+# feature data (C20)
+
+
+def mnemonic_ordinals(arch):
+    rows = [r for r in dump(arch) if "m" in r]
+    names = []
+    for r in rows:
+        if not names or names[-1] != r["m"]:
+            names.append(r["m"])
+    return names
+
+
+def gen_features(known_unstable, known_shadowed):
+    """Generated/FeatData.lean: the extension name → flag table read from riscv/mod.rs::parse_features and riscvdata.rs, the x64 feature names,
+    and the lists of known feature-dependent mnemonics (from known_findings.json) that the table theorems are stated against."""
+    ext_bits, isa_bits = rv_flag_bits()
+    src = open(os.path.join(common.REPO, "plugin/src/arch/riscv/mod.rs")).read()
+    arms = re.findall(r'"([a-z0-9]+)"\s*=>\s*riscvdata::ExtensionFlags::(Ex_\w+)', src)
+    if len(arms) < 10:
+        raise TranslationError("could not read the extension name table from riscv/mod.rs::parse_features")
+    for (_, flag) in arms:
+        if flag not in ext_bits:
+            raise TranslationError(f"parse_features maps to unknown flag {flag}")
+    xsrc = open(os.path.join(common.REPO, "plugin/src/arch/x64/x64data.rs")).read()
+    xfeat_bits = {m.group(1): int(m.group(2).replace("_", ""), 16) for m in re.finditer(r"const (\w+)\s*=\s*(0x[0-9A-Fa-f_]+);", xsrc[xsrc.index("pub struct Features"):xsrc.index("impl Features")])}
+    xnames = re.findall(r'"([a-z0-9]+)"\s*=>\s*Some\(Features::(\w+)\)', xsrc)
+    os.makedirs(common.GEN, exist_ok=True)
+    with open(os.path.join(common.GEN, "FeatData.lean"), "w") as f:
+        f.write("import DynasmVerif.Model.Features\n/-! generated from riscv/mod.rs, riscvdata.rs, x64data.rs and known_findings.json -/\nnamespace DynasmVerif.Feat.Gen\n")
+        f.write("def extTable : List (List Nat × Nat) := [\n" + ",\n".join(f"  ([{', '.join(str(ord(c)) for c in n)}], {ext_bits[fl]})" for (n, fl) in arms) + "]\n")
+        f.write(f"def exI : Nat := {ext_bits['Ex_I']}\n")
+        f.write("def x64Features : List (String × Nat) := [" + ", ".join(f"({lean_str(n)}, {xfeat_bits[fl]})" for (n, fl) in xnames) + "]\n")
+        rv_names = mnemonic_ordinals("riscv")
+        x_names = mnemonic_ordinals("x64")
+        f.write("/-- ordinals (position of the mnemonic in the sorted table) of " + ", ".join(known_unstable) + " -/\n")
+        f.write("def knownUnstable : List Nat := [" + ", ".join(str(rv_names.index(m)) for m in sorted(known_unstable, key=lambda m: rv_names.index(m)) if m in rv_names) + "]\n")
+        f.write("/-- (ordinal, shadowed form indices) of " + ", ".join(m for (m, _) in known_shadowed) + " -/\n")
+        f.write("def knownShadowed : List (Nat × List Nat) := [" + ", ".join(f"({x_names.index(m)}, [{', '.join(str(i) for i in ix)}])" for (m, ix) in sorted(known_shadowed, key=lambda p: x_names.index(p[0])) if m in x_names) + "]\n")
+        f.write("end DynasmVerif.Feat.Gen\n")
+    return {"ext_names": dict(arms), "ext_bits": ext_bits, "isa_bits": isa_bits, "x64_names": {n: xfeat_bits[fl] for (n, fl) in xnames},
+            "rv_mnemonics": rv_names, "x64_mnemonics": x_names}
